@@ -31,8 +31,8 @@ claimed = {
    technique="SSA symbolic execution + SMT bounded model checking, symbolic clock",
    design="5 C12"),
  "C10": dict(
-   text="Fault injection with a SYMBOLIC fault position: in every store operation from every state reached by the bounded histories, the k-th mutating database call fails (k decided by the solver per path). Asserted: error reported or database equal to a fault-free twin; after rollback database dump and all observations equal the pre-operation ones; retry gives the fault-free result. Transaction-store operations only.",
-   note="Transaction store only (address-manager part of C10 not built). memdb write-failure model; single fault per operation.",
+   text="Fault injection with a SYMBOLIC fault position: in every store operation from every state reached by the bounded histories, the k-th mutating database call fails (k decided by the solver per path). Asserted: error reported or database equal to a fault-free twin; after rollback database dump and all observations equal the pre-operation ones; retry gives the fault-free result. Transaction-store operations and ten address-manager operations.",
+   note="memdb write-failure model; single fault per operation. Store operations from bounded histories; ten address-manager operations from two pre-states. Found and fixed a swallowed write error in waddrmgr (known_findings.json).",
    technique="SSA symbolic execution + SMT, symbolic fault position, twin-execution comparison",
    design="5 C10"),
  "C19": dict(
@@ -75,6 +75,11 @@ claimed = {
    note="Three genuine divergences (SetSyncedTo, ExtendExternalAddresses, RenameAccount update memory inside the transaction) are recorded as known findings and reported as KNOWN-FINDING lines; any other divergence is a violation. Concrete seed.",
    technique="SSA symbolic execution with exhaustive history/outcome enumeration, two-manager comparison",
    design="5 C08"),
+ "C04": dict(
+   text="The real waddrmgr code runs create/derive/import/new-account/passphrase-change/convert-to-watching-only over a database model that logs every key and value ever written; every window of every logged byte string is compared with every secret (seed, master/coin-type/account extended private keys in raw and text form, address private keys, imported key and WIF, secret scripts, old and new passphrases) and, until imports, with public material (xpubs, public keys, hash160s). Passphrases and secret scripts are symbolic: the solver decides whether a stored window equals the secret for all its values. After conversion a reopened manager still knows every address, no passphrase (symbolic) unlocks it and no accessor returns private material.",
+   note="Decided at the granularity of bytes handed to the database (not the bbolt file image). One operation order. Concrete seed.",
+   technique="SSA symbolic execution + SMT validity queries over a database write log",
+   design="5 C04"),
 }
 
 not_applicable = {
